@@ -55,7 +55,7 @@ impl Pattern {
 
 pub const APP_NAMES: [&str; 6] = ["put_slice", "extend_from_slice", "put_bytes", "resize", "extend(iter)", "reserve+chunk_mut+advance_mut"];
 pub const CONS_NAMES: [&str; 5] = ["split()", "split_to(f)", "advance(f)", "clear()", "split_off(f) keeping the tail"];
-pub const FATE_NAMES: [&str; 5] = ["drop", "freeze, drop", "keep k rounds", "freeze, clone, keep clone k rounds", "unsplit back, then advance"];
+pub const FATE_NAMES: [&str; 7] = ["drop", "freeze, drop", "keep k rounds", "freeze, clone, keep clone k rounds", "unsplit back, then advance", "Vec::from(part), drop", "Vec::from(part.freeze()), drop"];
 
 enum Part {
     M(BytesMut),
@@ -90,7 +90,7 @@ pub fn run_pattern(p: &Pattern, n: u64) -> RunRes {
     res.bound_allocs = (2.0 * ((8 * w) as f64).log2()).ceil() as u64 + 8;
     let mut shapes = HashSet::new();
     for r in &p.rounds {
-        shapes.insert((r.app_m % 6, r.cons_m % 5, r.fate % 5, r.reserve > 0));
+        shapes.insert((r.app_m % 6, r.cons_m % 5, r.fate % 7, r.reserve > 0));
     }
     res.shapes = shapes.len();
     oalloc::set_quarantine(false);
@@ -109,6 +109,9 @@ pub fn run_pattern(p: &Pattern, n: u64) -> RunRes {
     let mut kept: VecDeque<(u64, Part)> = VecDeque::new();
     let c_start = oalloc::counters();
     let mut late_start_allocs: Option<u64> = None;
+    // byte-buffer allocations made by operations on the recycling buffer itself (reserve / append / consume /
+    // relabel); what the caller does with a split-off part (e.g. copying it into a Vec) is not the buffer's doing
+    let mut buf_allocs: u64 = 0;
     let marks = [n / 10, n];
     let mut i: u64 = 0;
     let abort_at = res.bound_peak.saturating_mul(64);
@@ -120,7 +123,7 @@ pub fn run_pattern(p: &Pattern, n: u64) -> RunRes {
     while i < n {
         let r = &p.rounds[(i % p.rounds.len() as u64) as usize];
         if i == n / 10 {
-            late_start_allocs = Some(oalloc::counters().byte_allocs);
+            late_start_allocs = Some(buf_allocs);
         }
         // retire kept parts whose time is up (before the refill)
         while kept.front().map_or(false, |(t, _)| *t <= i) {
@@ -154,6 +157,7 @@ pub fn run_pattern(p: &Pattern, n: u64) -> RunRes {
         };
         let spare = buf.capacity() - buf.len();
         let (rr, d) = call(|| buf.reserve(req));
+        buf_allocs += d.byte_allocs;
         if rr.is_err() {
             fail(&mut res, "reserve-panicked", format!("round {}: reserve({})", i, req));
             break;
@@ -183,7 +187,7 @@ pub fn run_pattern(p: &Pattern, n: u64) -> RunRes {
         }
         // append
         let data = &src[..m];
-        let (ar, _) = match r.app_m % 6 {
+        let (ar, ad) = match r.app_m % 6 {
             0 => call(|| buf.put_slice(data)),
             1 => call(|| buf.extend_from_slice(data)),
             2 => call(|| buf.put_bytes(0x5a, m)),
@@ -203,6 +207,7 @@ pub fn run_pattern(p: &Pattern, n: u64) -> RunRes {
                 }
             }),
         };
+        buf_allocs += ad.byte_allocs;
         if ar.is_err() {
             fail(&mut res, "append-panicked", format!("round {}: {} of {} bytes", i, APP_NAMES[(r.app_m % 6) as usize], m));
             break;
@@ -211,7 +216,7 @@ pub fn run_pattern(p: &Pattern, n: u64) -> RunRes {
         let len = buf.len();
         let at = (len * (r.frac as usize % 17)) / 16;
         let mut part: Option<BytesMut> = None;
-        let (cr, _) = match r.cons_m % 5 {
+        let (cr, cd) = match r.cons_m % 5 {
             0 => call(|| part = Some(buf.split())),
             1 => call(|| part = Some(buf.split_to(at))),
             2 => call(|| buf.advance(at)),
@@ -221,6 +226,7 @@ pub fn run_pattern(p: &Pattern, n: u64) -> RunRes {
                 part = Some(std::mem::replace(&mut buf, tail));
             }),
         };
+        buf_allocs += cd.byte_allocs;
         if cr.is_err() {
             fail(&mut res, "consume-panicked", format!("round {}: {}", i, CONS_NAMES[(r.cons_m % 5) as usize]));
             break;
@@ -228,9 +234,15 @@ pub fn run_pattern(p: &Pattern, n: u64) -> RunRes {
         // fate of the part
         if let Some(pt) = part {
             let due = i + 1 + k as u64;
-            match r.fate % 5 {
+            match r.fate % 7 {
                 0 => {
                     let _ = call(move || drop(pt));
+                }
+                5 => {
+                    let _ = call(move || drop(Vec::from(pt)));
+                }
+                6 => {
+                    let _ = call(move || drop(Vec::from(pt.freeze())));
                 }
                 1 => {
                     let _ = call(move || drop(pt.freeze()));
@@ -283,10 +295,11 @@ pub fn run_pattern(p: &Pattern, n: u64) -> RunRes {
             res.saw_leftover = true;
         }
         if p.relabel_every > 0 && i % (p.relabel_every as u64) == p.relabel_every as u64 - 1 {
-            let (rr, _) = call(|| {
+            let (rr, rd) = call(|| {
                 let b = std::mem::replace(&mut buf, BytesMut::new());
                 buf = BytesMut::from(b.freeze());
             });
+            buf_allocs += rd.byte_allocs;
             if rr.is_err() {
                 fail(&mut res, "relabel-panicked", format!("round {}", i));
                 break;
@@ -309,7 +322,7 @@ pub fn run_pattern(p: &Pattern, n: u64) -> RunRes {
     res.rounds_run = i;
     let c_end = oalloc::counters();
     res.total_byte_allocs = c_end.byte_allocs - c_start.byte_allocs;
-    res.late_byte_allocs = late_start_allocs.map(|s| c_end.byte_allocs - s).unwrap_or(0);
+    res.late_byte_allocs = late_start_allocs.map(|s| buf_allocs - s).unwrap_or(0);
     let peak = c_end.peak_bytes;
     res.ratio = (peak.saturating_sub(4096)) as f64 / (((k + 2) * w) as f64);
     if res.viol.is_none() {
@@ -340,7 +353,7 @@ pub fn run_pattern(p: &Pattern, n: u64) -> RunRes {
 fn round_strategy() -> BoxedStrategy<Round> {
     let m = prop_oneof![4 => 1u32..=64, 3 => 65u32..=1500, 1 => Just(4096u32), 1 => Just(0u32), 1 => Just(1024u32)];
     let reserve = prop_oneof![5 => Just(0u32), 2 => 1u32..=4096, 1 => Just(65536u32), 1 => Just(128u32)];
-    (reserve, 0u8..6, m, 0u8..5, 0u8..=16, 0u8..5).prop_map(|(reserve, app_m, m, cons_m, frac, fate)| Round { reserve, app_m, m, cons_m, frac, fate }).boxed()
+    (reserve, 0u8..6, m, 0u8..5, 0u8..=16, 0u8..7).prop_map(|(reserve, app_m, m, cons_m, frac, fate)| Round { reserve, app_m, m, cons_m, frac, fate }).boxed()
 }
 pub fn pattern_strategy(max_period: usize) -> BoxedStrategy<Pattern> {
     let caps = prop_oneof![2 => Just(0u32), 2 => 1u32..=128, 2 => Just(1024u32), 1 => Just(4096u32), 1 => Just(65536u32), 1 => Just(65535u32), 1 => 129u32..=9000];
